@@ -36,7 +36,7 @@ static PPath gen_base(Rng& r, const Frame& f, int fam, int maxpts) {
   PPath p;
   int n;
   switch (fam) {
-    case 0: n = (int)r.range(3, std::max(3, maxpts)); for (int i = 0; i < n; ++i) p.push_back(rnd_pt(r, f)); break;  // random polygon
+    case 0: n = (int)r.range(3, std::max(3, std::min(maxpts, 120))); for (int i = 0; i < n; ++i) p.push_back(rnd_pt(r, f)); break;  // random polygon (quadratic number of crossings: never huge)
     case 1: {                                                                                                     // star / regular
       n = (int)r.range(3, std::max(3, std::min(maxpts, 24)));
       double r1 = (double)f.ext, r2 = (double)f.ext * r.unit(), ph = r.unit() * 6.28318530717958647692;
@@ -75,8 +75,34 @@ static PPath gen_base(Rng& r, const Frame& f, int fam, int maxpts) {
       for (int i = 0; i < n; ++i) { PPt q; q.x = ((i & 1) ? f.cx + f.ext : f.cx - f.ext) + ((i & 1) ? -1 : 1) * r.range(0, std::max<int64_t>(0, f.ext / 8)); q.y = y; p.push_back(q); y += r.range(-3, 3); }
       if (r.chance(0.5)) { PPt q = rnd_pt(r, f); p.push_back(q); }
       break; }
+    // families 9-11 are the only ones that use a large maxpts in full: long paths whose number of crossings stays linear
+    case 9: {                                                                                                     // growing sawtooth: n/2 local minima, every split of a recursive simplifier lands on the last tooth
+      n = (int)r.range(std::max(3, maxpts / 2), std::max(3, maxpts)); int wig = (int)r.below(3);
+      double w = 2.0 * (double)f.ext / (double)(n + 1);
+      for (int i = 0; i < n; ++i) {
+        int tooth = i / (1 + wig), sub = i % (1 + wig);
+        double amp = (double)f.ext * (double)(tooth + 1) * (double)(1 + wig) / (double)(n + 1);
+        PPt q; q.x = f.cx - f.ext + (int64_t)std::llround(w * (i + 1));
+        q.y = f.cy + ((tooth & 1) ? (int64_t)std::llround(amp) - sub : -(int64_t)r.range(0, 2) - sub);
+        p.push_back(q);
+      }
+      break; }
+    case 10: {                                                                                                    // spiral
+      n = (int)r.range(std::max(3, std::min(maxpts, 2000) / 2), std::max(3, std::min(maxpts, 2000))); double step = 0.2 + r.unit() * 1.3, ph = r.unit() * 6.28318530717958647692;
+      step = std::min(step, 60.0 * 6.28318530717958647692 / (double)n);      // at most 60 turns: a path that crosses the spiral meets every turn
+      for (int i = 0; i < n; ++i) { double a = ph + step * i, rr = (double)f.ext * (double)(i + 1) / (double)(n + 1); PPt q; q.x = f.cx + (int64_t)std::llround(rr * std::cos(a)); q.y = f.cy + (int64_t)std::llround(rr * std::sin(a)); p.push_back(q); }
+      break; }
+    case 11: {                                                                                                    // comb: rectilinear teeth, horizontals and verticals only
+      n = (int)r.range(std::max(4, maxpts / 2), std::max(4, maxpts)) / 4 * 4; if (n < 4) n = 4;
+      double w = 2.0 * (double)f.ext / (double)(n / 2 + 1); int64_t base = f.cy - f.ext;
+      for (int i = 0; i < n / 4; ++i) {
+        int64_t x0 = f.cx - f.ext + (int64_t)std::llround(w * (2 * i)), x1 = f.cx - f.ext + (int64_t)std::llround(w * (2 * i + 1)); int64_t top = f.cy + snap(r.range(-f.ext / 2, f.ext), f.grid);
+        p.push_back({x0, base, 0}); p.push_back({x0, top, 0}); p.push_back({x1, top, 0}); p.push_back({x1, base, 0});
+      }
+      p.push_back({f.cx + f.ext, base - std::max<int64_t>(1, f.ext / 8), 0}); p.push_back({f.cx - f.ext, base - std::max<int64_t>(1, f.ext / 8), 0});
+      break; }
     default: {                                                                                                    // random walk (self-intersecting)
-      n = (int)r.range(3, std::max(3, maxpts)); PPt a = rnd_pt(r, f); int64_t st = std::max<int64_t>(1, f.ext / 4);
+      n = (int)r.range(3, std::max(3, std::min(maxpts, 120))); PPt a = rnd_pt(r, f); int64_t st = std::max<int64_t>(1, f.ext / 4);
       for (int i = 0; i < n; ++i) { p.push_back(a); a.x += snap(r.range(-st, st), f.grid); a.y += snap(r.range(-st, st), f.grid);
         if (a.x > f.cx + f.ext) a.x = f.cx + f.ext; if (a.x < f.cx - f.ext) a.x = f.cx - f.ext; if (a.y > f.cy + f.ext) a.y = f.cy + f.ext; if (a.y < f.cy - f.ext) a.y = f.cy - f.ext; }
       break; }
@@ -113,8 +139,10 @@ PPaths gen_paths(Rng& r, int64_t mag, int maxpaths, int maxpts, bool z, const Fr
       else if (k == 1) { int64_t dx = r.range(-2, 2), dy = r.range(-2, 2); for (PPt& q : p) { q.x = std::max(-mag, std::min(mag, q.x + dx)); q.y = std::max(-mag, std::min(mag, q.y + dy)); } }
       else if (k == 2 && !p.empty()) std::rotate(p.begin(), p.begin() + r.below(p.size()), p.end());
     } else {
-      static const int fams[] = {0, 0, 0, 1, 1, 2, 2, 3, 3, 4, 4, 5, 6, 6, 7, 8};
+      static const int fams[] = {0, 0, 0, 1, 1, 2, 2, 3, 3, 4, 4, 5, 6, 6, 7, 8, 9, 10, 11};
       int fam = fams[r.below(sizeof(fams) / sizeof(int))];
+      if (maxpts > 120 && r.chance(0.75)) fam = 9 + (int)r.below(3);       // a large size class means a long structured path
+      if (maxpts > 2000) fam = r.chance(0.5) ? 9 : 11;                      // the largest class: only the families whose crossings stay linear
       Frame g = f;
       if (r.chance(0.3)) { g.ext = std::max<int64_t>(1, f.ext / 2); g.cx = f.cx + snap(r.range(-f.ext / 2, f.ext / 2), f.grid); g.cy = f.cy + snap(r.range(-f.ext / 2, f.ext / 2), f.grid); }
       p = gen_base(r, g, fam, maxpts);
@@ -174,7 +202,17 @@ static PPathsD gen_pathsd(Rng& r, int64_t mag, int prec, int maxpaths, int maxpt
 }
 
 // offsets: keep the number of arc vertices executable (domain restriction stated in DESIGN 3.1.1)
-static void pick_offset_params(Rng& r, int64_t ext, int nverts, double& delta, double& miter, double& arc, int64_t mag) {
+// spacing of the vertices of the densest long path (bounding-box side / number of points), or a huge value if no path is long
+static double long_path_spacing(const PPaths& pp) {
+  double best = 1e300;
+  for (const PPath& p : pp) if (p.size() > 150) {
+    int64_t lx = INT64_MAX, hx = INT64_MIN, ly = INT64_MAX, hy = INT64_MIN;
+    for (const PPt& q : p) { lx = std::min(lx, q.x); hx = std::max(hx, q.x); ly = std::min(ly, q.y); hy = std::max(hy, q.y); }
+    best = std::min(best, std::max((double)hx - (double)lx, (double)hy - (double)ly) / (double)p.size());
+  }
+  return best;
+}
+static void pick_offset_params(Rng& r, int64_t ext, int nverts, double& delta, double& miter, double& arc, int64_t mag, double spacing = 1e300) {
   static const double small[] = {0, 0.3, 0.5, 1, 2.5, 7};
   int k = (int)r.below(10);
   double e = (double)std::max<int64_t>(1, ext);
@@ -183,6 +221,10 @@ static void pick_offset_params(Rng& r, int64_t ext, int nverts, double& delta, d
   else if (k < 8) delta = e * (1 + r.unit() * 4);
   else if (k < 9) delta = (double)mag * r.unit();
   else delta = (double)r.range(1, 1000);
+  // long paths: an offset much wider than the spacing of the vertices makes every stroke overlap hundreds of others
+  // (quadratic number of crossings in the finishing union); keep it within a few vertex spacings
+  if (nverts > 150) delta = std::min(delta, std::max(1.0, 3.0 * e / (double)nverts));
+  if (spacing < 1e299) delta = std::min(delta, std::max(1.0, 1.5 * spacing));
   if (r.chance(0.45)) delta = -delta;
   static const double ml[] = {2.0, 2.0, 0, 1, 1.5, 3, 10, 100};
   miter = ml[r.below(8)];
@@ -199,10 +241,10 @@ static void pick_offset_params(Rng& r, int64_t ext, int nverts, double& delta, d
 
 static int count_pts(const PPaths& pp) { int n = 0; for (const PPath& p : pp) n += (int)p.size(); return n; }
 static int64_t extent_of(const PPaths& pp) {
-  int64_t lo = INT64_MAX, hi = INT64_MIN;
-  for (const PPath& p : pp) for (const PPt& q : p) { lo = std::min(lo, std::min(q.x, q.y)); hi = std::max(hi, std::max(q.x, q.y)); }
-  if (lo > hi) return 1;
-  double e = (double)hi - (double)lo; return e > 9e18 ? INT64_MAX / 2 : std::max<int64_t>(1, hi - lo);
+  int64_t lx = INT64_MAX, hx = INT64_MIN, ly = INT64_MAX, hy = INT64_MIN;           // the larger side of the bounding box
+  for (const PPath& p : pp) for (const PPt& q : p) { lx = std::min(lx, q.x); hx = std::max(hx, q.x); ly = std::min(ly, q.y); hy = std::max(hy, q.y); }
+  if (lx > hx) return 1;
+  double e = std::max((double)hx - (double)lx, (double)hy - (double)ly); return e > 9e18 ? INT64_MAX / 2 : std::max<int64_t>(1, std::max(hx - lx, hy - ly));
 }
 
 // One entry-point exercise appended to plan as ops of `task` using object slots starting at slot0.
@@ -257,11 +299,13 @@ static int append_entry(Rng& r, Plan& pl, int kind, int task, int slot0, const s
       setD(o, 0, gen_pathsd(r, m, prec, maxpaths, maxpts, z, true)); setD(o, 1, gen_pathsd(r, m, prec, maxpaths, maxpts, z, true));
       push(o); return 0; }
     case 5: {  // ClipperOffset object
+      maxpts = std::min(maxpts, 300);   // offsetting multiplies the vertex count, and the sweep of the finishing union is quadratic in it for comb-like input
       MagClass mc = pick_mag(r, cfg, false);
       std::vector<PPaths> groups; int ng = (int)r.range(1, 3); int nv = 0; int64_t ext = 1;
       Frame f = make_frame(r, mc.mag);
       for (int i = 0; i < ng; ++i) { groups.push_back(gen_paths(r, mc.mag, maxpaths, maxpts, z, r.chance(0.7) ? &f : nullptr)); nv += count_pts(groups.back()); ext = std::max(ext, extent_of(groups.back())); }
-      double delta, miter, arc; pick_offset_params(r, ext, nv, delta, miter, arc, mc.mag);
+      double spacing = 1e300; for (const PPaths& gp : groups) spacing = std::min(spacing, long_path_spacing(gp));
+      double delta, miter, arc; pick_offset_params(r, ext, nv, delta, miter, arc, mc.mag, spacing);
       Op n = mkop("new_off", task); n.o = slot0; n.d = {miter, arc}; n.i = {(int64_t)r.below(2), (int64_t)r.below(2)}; push(n);
       if (z && r.chance(0.5)) { Op o = mkop("setz", task); o.o = slot0; o.i = {(int64_t)r.range(1, 2)}; push(o); }
       for (int i = 0; i < ng; ++i) {
@@ -279,13 +323,14 @@ static int append_entry(Rng& r, Plan& pl, int kind, int task, int slot0, const s
       if (r.chance(0.7)) { Op d = mkop("del", task); d.o = slot0; push(d); }
       return 1; }
     case 6: {  // InflatePaths free functions
+      maxpts = std::min(maxpts, 300);   // offsetting multiplies the vertex count, and the sweep of the finishing union is quadratic in it for comb-like input
       MagClass mc = pick_mag(r, cfg, false);
       if (r.chance(0.5)) {
-        PPaths pp = gen_paths(r, mc.mag, maxpaths, maxpts, z, nullptr); double delta, miter, arc; pick_offset_params(r, extent_of(pp), count_pts(pp), delta, miter, arc, mc.mag);
+        PPaths pp = gen_paths(r, mc.mag, maxpaths, maxpts, z, nullptr); double delta, miter, arc; pick_offset_params(r, extent_of(pp), count_pts(pp), delta, miter, arc, mc.mag, long_path_spacing(pp));
         Op o = mkop("inflate64", task); o.d = {delta, miter, arc}; o.i = {(int64_t)r.below(4), (int64_t)r.below(5)}; setP(o, 0, pp); push(o);
       } else {
         int prec = pick_prec(r, true); int pc = prec < -8 ? -8 : (prec > 8 ? 8 : prec);
-        PPaths ip = gen_paths(r, mc.mag, maxpaths, maxpts, z, nullptr); double delta, miter, arc; pick_offset_params(r, extent_of(ip), count_pts(ip), delta, miter, arc, mc.mag);
+        PPaths ip = gen_paths(r, mc.mag, maxpaths, maxpts, z, nullptr); double delta, miter, arc; pick_offset_params(r, extent_of(ip), count_pts(ip), delta, miter, arc, mc.mag, long_path_spacing(ip));
         double sc = std::pow(10.0, pc);
         Op o = mkop("inflateD", task); o.d = {delta / sc, miter, arc / sc}; o.i = {(int64_t)r.below(4), (int64_t)r.below(5), prec}; setD(o, 0, to_d(ip, sc, r, true)); push(o);
       }
@@ -370,8 +415,9 @@ static int append_entry(Rng& r, Plan& pl, int kind, int task, int slot0, const s
       }
       return 0; }
     case 12: {  // C export: inflate
+      maxpts = std::min(maxpts, 300);   // offsetting multiplies the vertex count, and the sweep of the finishing union is quadratic in it for comb-like input
       MagClass mc = pick_mag(r, cfg, false);
-      PPaths ip = gen_paths(r, mc.mag, maxpaths, maxpts, z, nullptr); double delta, miter, arc; pick_offset_params(r, extent_of(ip), count_pts(ip), delta, miter, arc, mc.mag);
+      PPaths ip = gen_paths(r, mc.mag, maxpaths, maxpts, z, nullptr); double delta, miter, arc; pick_offset_params(r, extent_of(ip), count_pts(ip), delta, miter, arc, mc.mag, long_path_spacing(ip));
       if (r.chance(0.5)) { Op o = mkop("x_inflate64", task); o.d = {delta, miter, arc}; o.i = {(int64_t)r.below(4), (int64_t)r.below(5), (int64_t)r.below(2), (int64_t)r.below(2), (int64_t)(r.chance(0.1) ? 1 : 0)}; setP(o, 0, ip); push(o); }
       else { int prec = r.chance(0.05) ? -9 : (int)r.range(-8, 8); int pc = prec < -8 ? -8 : prec; double sc = std::pow(10.0, pc);
         // nb: the export layer passes arc_tolerance to ClipperOffset unscaled (unlike InflatePaths(PathsD)), so it is given in scaled units here
@@ -432,10 +478,17 @@ Plan gen_c10(uint64_t seed, uint64_t run, const std::string& cfg) {
   Rng g(mix64(base, tag64("gen"))); Rng e(mix64(base, tag64("env")));
   pl.env = e.next() | 1;
   bool z = cfg.find('Z') != std::string::npos;
-  g_allow_blow_up = cfg.find("62") != std::string::npos; g_allow_dup_container = true;
+  g_allow_blow_up = cfg.find("62") != std::string::npos; g_allow_dup_container = cfg.empty() || cfg[0] != 'V';   // not in the memcheck builds: F9 crashes are plain SEGVs there and every one costs a valgrind start-up
   struct Reset { ~Reset() { g_allow_blow_up = false; g_allow_dup_container = false; } } reset_on_exit;
   int sz = (int)g.below(100);
   int maxpaths = sz < 60 ? 2 : (sz < 92 ? 4 : 8), maxpts = sz < 55 ? 6 : (sz < 88 ? 14 : (sz < 98 ? 40 : 100));
+  // long paths (size thresholds inside the library: fixed-size scratch, "large input" fast paths): a few hundred points where
+  // faults are enumerated, thousands in the workers that only run the fault-free phases (run indices from 10^9)
+  { unsigned big = (unsigned)g.below(1000);
+    bool slow = !cfg.empty() && cfg[0] == 'V';                   // under valgrind a 8000-point case takes minutes
+    if (run >= 1000000000ull) { if (big < 3 && !slow) maxpts = 2000; else if (big < 12) maxpts = 400; }
+    else if (big < 6) maxpts = 400;
+    if (maxpts > 100) maxpaths = 2; }
   if (g.chance(0.08)) {                                          // phase C: faults inside object histories
     Plan h = gen_c12(seed, run * 8 + 2 + g.below(6), cfg);
     h.prop = "C10"; h.check_model = 0; h.run = run; h.env = pl.env;
@@ -645,7 +698,8 @@ Plan gen_c14(uint64_t seed, uint64_t run, const std::string& cfg) {
     Op n = mkop("new_cont", -1); n.o = 100; pl.ops.push_back(n);
     int64_t mag = (int64_t)1 << (int)g.range(4, 20); Frame f = make_frame(g, mag);
     int na = (int)g.range(1, 2);
-    for (int i = 0; i < na; ++i) { Op a = mkop("k_add", -1); a.o = 100; a.i = {(int64_t)g.below(2), 0}; setP(a, 0, gen_paths(g, mag, 3, 10, z, &f)); pl.ops.push_back(a); }
+    int cpts = g.chance(0.06) ? (g.chance(0.6) ? 600 : 1600) : 10;      // now and then a shared container with hundreds of local minima
+    for (int i = 0; i < na; ++i) { Op a = mkop("k_add", -1); a.o = 100; a.i = {(int64_t)g.below(2), 0}; setP(a, 0, gen_paths(g, mag, cpts > 10 ? 1 : 3, cpts, z, &f)); pl.ops.push_back(a); }
   }
   // co-location: with probability 1/2 all tasks run the same entry class (same library functions in flight)
   int common = g.chance(0.5) ? (int)g.below(N_ENTRY_KINDS) : -1;
@@ -654,11 +708,11 @@ Plan gen_c14(uint64_t seed, uint64_t run, const std::string& cfg) {
     for (int k = 0; k < nops; ++k) {
       int kind = common >= 0 && g.chance(0.8) ? common : (int)g.below(N_ENTRY_KINDS);
       if (shared >= 0 && g.chance(0.4)) kind = (int)g.below(2);
-      bool big = g.chance(0.05);
+      bool big = g.chance(0.05); int bigpts = 120; if (big && g.chance(0.12)) bigpts = g.chance(0.75) ? 1500 : 3500;
       // builds without UBSan (P*, T*) also get tasks with huge coordinates (boolean clipping only): state that the library
       // writes only for extreme input is then written while other tasks are in flight
       bool huge = (cfg[0] == 'P' || cfg[0] == 'T') && (kind <= 1 || kind == 3 || kind == 11 || kind == 16) && g.chance(0.15);
-      slot += append_entry(g, pl, kind, t, slot, huge ? "A62" : "A", z, 3, big ? 120 : 12, shared);
+      slot += append_entry(g, pl, kind, t, slot, huge ? "A62" : "A", z, big && bigpts > 120 ? 2 : 3, big ? bigpts : 12, shared);
       if (slot > 12) break;
     }
   }
